@@ -505,18 +505,42 @@ class Command(BaseCommand):
         This will output the SQL that would be executed based on the options
         passed to the command.
         """
-        database_name = self.evolver.database_name
+        evolver = self.evolver
+        database_name = evolver.database_name
+
+        # Evolutions are executed batch by batch, in dependency order, and an
+        # app's evolutions may be spread across several batches (with another
+        # app's evolutions or migrations in-between). Show the SQL in the
+        # order and form in which it would be executed.
+        entries = []
+        batched_tasks = set()
+        state = getattr(evolver, '_evolve_app_task_state', None)
+
+        # Accessing the tasks makes sure they've all been prepared.
+        tasks = list(evolver.tasks)
+
+        for batch_info in (state or {}).get('batches', []):
+            task_evolutions = batch_info.get('task_evolutions', {})
+
+            for task, task_info in six.iteritems(task_evolutions):
+                batched_tasks.add(task)
+
+                if task_info.get('sql'):
+                    entries.append((task, task_info['sql']))
+
+        for task in tasks:
+            if task not in batched_tasks and task.sql:
+                entries.append((task, task.sql))
 
         with SQLExecutor(database=database_name) as executor:
-            for i, task in enumerate(self.evolver.tasks):
-                if task.sql:
-                    if i > 0:
-                        self.stdout.write('\n')
+            for i, (task, sql) in enumerate(entries):
+                if i > 0:
+                    self.stdout.write('\n')
 
-                    self.stdout.write('-- %s\n' % task)
+                self.stdout.write('-- %s\n' % task)
 
-                    for statement in executor.run_sql(task.sql, capture=True):
-                        self.stdout.write('%s\n' % statement)
+                for statement in executor.run_sql(sql, capture=True):
+                    self.stdout.write('%s\n' % statement)
 
     def _display_available_purges(self):
         """Display the apps that can be purged."""
